@@ -426,6 +426,7 @@ func typeConverter(t dsl.Type, contextNamespace string, namedType *dsl.NamedType
 			}
 
 			simplfied := "True"
+			hasGenericCase := false
 			var possibleTypes ndjsoncommon.JsonDataType
 			options := make([]string, len(t.Cases))
 			for i, c := range t.Cases {
@@ -457,8 +458,19 @@ func typeConverter(t dsl.Type, contextNamespace string, namedType *dsl.NamedType
 						simplfied = "False"
 					}
 					possibleTypes |= jsonTypes
-					options[i] = fmt.Sprintf("(%s.%s, %s, [%s])", classSyntax, formatting.ToPascalCase(c.Tag), typeConverter(c.Type, contextNamespace, nil), strings.Join(jsonTypeStrings, ", "))
+					jsonTypesList := fmt.Sprintf("[%s]", strings.Join(jsonTypeStrings, ", "))
+					if ndjsoncommon.IsGenericTypeParameter(c.Type) {
+						// what the parameter stands for, and with it whether the values of the union need tags,
+						// is known to the converter of an instantiation only: the runtime works both out
+						jsonTypesList = "None"
+						hasGenericCase = true
+					}
+					options[i] = fmt.Sprintf("(%s.%s, %s, %s)", classSyntax, formatting.ToPascalCase(c.Tag), typeConverter(c.Type, contextNamespace, nil), jsonTypesList)
 				}
+			}
+
+			if hasGenericCase {
+				simplfied = "None"
 			}
 
 			return fmt.Sprintf("_ndjson.UnionConverter(%s, [%s], %s)", unionClassName, strings.Join(options, ", "), simplfied)
